@@ -456,6 +456,10 @@ class GBNFCompiler:
         if simple_char_class:
             char_class = simple_char_class.group(1)
             quantifier = simple_char_class.group(2) or "+"
+            # GBNF only knows the escapes \\ \" \[ \] \n \r \t (and \x \u \U); a regex
+            # escape such as \- or \. inside the class would be a GBNF syntax error.
+            if re.search(r'\\[^\\"\[\]nrtxuU]', char_class):
+                return "[^\\n]+"
             return f"[{char_class}]{quantifier}"
 
         # For more complex patterns, create a safe approximation
@@ -464,6 +468,13 @@ class GBNFCompiler:
 
         # If result is empty or just quantifiers, use permissive
         if not result or result in ["+", "*", "?"]:
+            return "[^\\n]+"
+
+        # Only a sequence of character classes with optional quantifiers is valid GBNF as
+        # it stands. Bare literals ("^abc$" -> abc), groups, alternation, braces or other
+        # escapes would be read as rule references or syntax errors by a GBNF parser, so
+        # degrade to the permissive pattern like the other unsupported constructs.
+        if not re.fullmatch(r"(?:\[\^?(?:[^\]\\]|\\n)+\][+*?]?)+", result):
             return "[^\\n]+"
 
         return result
